@@ -1,5 +1,6 @@
 import CMacVerif.Model.Yaml
 import CMacVerif.Model.Units
+import CMacVerif.Model.Snapshot
 import CMacVerif.Util.Bits
 /-! Line-protocol driver for C20.  Strings cross the boundary hex-encoded (two digits per byte,
 "-" = empty string).  See tools/props/c20.py for the op formats. -/
@@ -121,11 +122,53 @@ def convTag (q : Nat) (u : List Char) : String :=
 
 end C20U
 
+namespace C20S
+open CMacVerif.Snapshot
+
+def fnv (h : UInt64) (x : Nat) : UInt64 := (h ^^^ x.toUInt64) * 1099511628211
+def fnv0 : UInt64 := 14695981039346656037
+def noPos : Nat := 4294967295
+
+/-- `snapidx`: the index maps of the model for one grid — W: cell stored at every file position
+(the same for every dataset, C: the coordinates dataset), P / R: file position fetched by the
+plain / buffered reader for every cell of the grid in x,y,z order (on the file `position ↦ position`) -/
+def snapidx (legacy : Bool) (nx ny nz gx gy gz B : Nat) : String := Id.run do
+  let L : Layout := if legacy then ⟨1, 1, 1, nx, ny, nz⟩ else ⟨gx, gy, gz, nx / gx, ny / gy, nz / gz⟩
+  let total := nx * ny * nz
+  let coords : DS (Nat × Nat × Nat) := snapshot B L id
+  let idDS : DS Nat := fun k => if k < total then some k else none
+  let mut w := fnv0
+  for k in [0:total] do
+    w := fnv w (match coords k with | some c => one ny nz c | none => noPos)
+  let grid := plainGrid nx ny nz total coords idDS
+  let mut p := fnv0
+  for ix in [0:nx] do
+    for iy in [0:ny] do
+      for iz in [0:nz] do
+        p := fnv p (match get grid (one ny nz (ix, iy, iz)) with | some k => k | none => noPos)
+  let cubic := !legacy && nx == ny && ny == nz
+  let mut r := fnv0
+  if cubic then
+    let bufs : Array (Array (Option Nat)) := (Array.range L.G).map (fun sg => bufferSubgrid L idDS sg)
+    for ix in [0:nx] do
+      for iy in [0:ny] do
+        for iz in [0:nz] do
+          let i := bufferedIndex L (ix, iy, iz)
+          r := fnv r (match get (bufs.getD i.1 #[]) i.2 with | some k => k | none => noPos)
+  let nb := L.N / B + (if L.N % B > 0 then 1 else 0)
+  let tag := if nb ≤ 1 then "1" else if nb == 2 then "2" else "3+"
+  let rs := if cubic then toString r.toNat else "-"
+  return s!"ok {total} W={w.toNat} C={w.toNat} P={p.toNat} R={rs} #idx-blocks={tag},{if legacy then "legacy" else if cubic then "both" else "plain"}"
+
+end C20S
+
 open C20 C20U CMacVerif.Units in
 def step (_ : Unit) : List String → Unit × String
   | ["yaml", t] => ((), yamlOp (unhex t))
   | "used" :: t :: kvs => ((), usedOp (unhex t) (pairs kvs))
   | "query" :: _ => ((), "-")
+  | ["snapidx", mode, nx, ny, nz, gx, gy, gz, b, _buffer] =>
+    ((), C20S.snapidx (mode == "legacy") (nat! nx) (nat! ny) (nat! nz) (nat! gx) (nat! gy) (nat! gz) (nat! b))
   | ["single", n] =>
     ((), showUnit (getSingleUnit (unhex n)) (getSingleUnit (unhex n)) ++ " #single")
   | ["tablerel", a, f, b] =>
